@@ -24,6 +24,11 @@
 //! hour of virtual time (`idle<w>` if it is still parked then, `late<w>:<answer>` if the timer's
 //! turn of the scheduler is what made it finish).
 //!
+//! `life st<k> <items>` cases (c18_x.rs, audit aC18): two `health_reporter()` pairs in one process,
+//! reporter / client handles cloned, overwritten and dropped between the operations, behind one of
+//! five client/server stacks; that file also generates `seq` cases of scale (many watchers, many
+//! names, bursts of 15…513 updates between polls) and near-miss name pairs.
+//!
 //! Every observed line is `<exact answers> # <per-stream report sequences>`: `r<w>=<digits>` is
 //! the sequence of statuses stream `w` delivered with immediate repetitions removed (a purely
 //! syntactic function of the answers).  See Driver/C18.lean for how the two parts are compared.
@@ -38,6 +43,11 @@ use tonic_health::pb::health_server::{Health, HealthServer};
 use tonic_health::pb::HealthCheckRequest;
 use tonic_health::server::{health_reporter, HealthReporter};
 use tonic_health::ServingStatus;
+
+/// audit aC18: `life` cases (handle lifecycle, independent pairs, stack variants) and the scale /
+/// naming generators — see the header of c18_x.rs
+#[path = "c18_x.rs"]
+mod x;
 
 // ---------------------------------------------------------------------------------------------
 // case vocabulary
@@ -742,6 +752,7 @@ pub fn execute(case: &str) -> String {
             }
             None => "bad-case".into(),
         },
+        Some("life") => x::execute_life(&t[1..]),
         Some("conc") if t.len() >= 2 => {
             let Ok(seed) = t[1].parse::<u64>() else { return "bad-case".into() };
             let mut programs = Vec::new();
@@ -1044,6 +1055,8 @@ pub fn generate(tier: &str, rng: &mut Rng) -> Vec<String> {
         gen_conc(rng, 4000, &mut out);
         gen_create_race(rng, 24000, &mut out);
     }
+    // ---- audit aC18: handles, pairs, stacks, scale, near-miss names (c18_x.rs)
+    x::generate(tier, rng, &mut out);
     out
 }
 
